@@ -30,76 +30,6 @@ use serde_json::json;
 use std::collections::HashMap;
 
 const TARGET: u64 = 10;
-const FREE_ID: u64 = 20;
-const GAP_ID: u64 = 21;
-
-/// independent serialiser: names are regular ASCII, strings in hex form, reals always with a fraction
-pub fn pdf_text(p: &Primitive) -> String {
-    match p {
-        Primitive::Null => "null".into(),
-        Primitive::Integer(i) => format!("{}", i),
-        Primitive::Number(f) => {
-            let s = format!("{}", f);
-            if s.contains('.') {
-                s
-            } else {
-                format!("{}.0", s)
-            }
-        }
-        Primitive::Boolean(b) => format!("{}", b),
-        Primitive::String(s) => format!("<{}>", s.as_bytes().iter().map(|b| format!("{:02x}", b)).collect::<String>()),
-        Primitive::Name(n) => format!("/{}", n.as_str()),
-        Primitive::Array(a) => format!("[{}]", a.iter().map(pdf_text).collect::<Vec<_>>().join(" ")),
-        Primitive::Dictionary(d) => format!("<< {} >>", d.iter().map(|(k, v)| format!("/{} {}", k.as_str(), pdf_text(v))).collect::<Vec<_>>().join(" ")),
-        Primitive::Reference(r) => format!("{} {} R", r.id, r.gen),
-        Primitive::Stream(_) => "null".into(),
-    }
-}
-
-pub struct Doc {
-    pub bytes: Vec<u8>,
-    pub beyond_id: u64,
-}
-
-/// objects 1 (catalog), 2 (pages), 3 (page) unless overridden by `objs`; `objs` as given; 20 free; 21 (and
-/// every other unlisted number) undefined; `beyond_id` ≥ table length
-pub fn build_doc(objs: &HashMap<u64, Primitive>, stream_xref: bool) -> Doc {
-    let mut w = PdfWriter::new(b"", "1.7");
-    w.free(0, 0, 65535);
-    let mut all: Vec<(u64, String)> = vec![];
-    let defaults = [(1u64, "<< /Type /Catalog /Pages 2 0 R >>"), (2, "<< /Type /Pages /Kids [3 0 R] /Count 1 >>"), (3, "<< /Type /Page /Parent 2 0 R >>")];
-    for (id, body) in defaults {
-        if !objs.contains_key(&id) {
-            all.push((id, body.to_string()));
-        }
-    }
-    for (id, p) in objs {
-        all.push((*id, pdf_text(p)));
-    }
-    all.sort();
-    let mut max_id = GAP_ID;
-    for (id, body) in &all {
-        w.object(*id, 0, body.as_bytes());
-        max_id = max_id.max(*id);
-    }
-    w.free(FREE_ID, 0, 1);
-    let (fmt, xref_id) = if stream_xref { (XrefFormat::Stream, max_id + 1) } else { (XrefFormat::Classic, 0) };
-    if stream_xref {
-        max_id += 1;
-    }
-    let size = max_id + 1;
-    w.finish(fmt, size, "/Root 1 0 R", &[], xref_id);
-    // XRefTable::new(size) has size+1 entries (index `size` is a free entry): beyond starts at size+1
-    Doc { bytes: w.out.clone(), beyond_id: size + 7 }
-}
-
-fn kind_id(kind: char, doc_beyond: u64) -> u64 {
-    match kind {
-        'F' => FREE_ID,
-        'N' => GAP_ID,
-        _ => doc_beyond,
-    }
-}
 
 // ---------------------------------------------------------------------------------------------------
 // real reads through the real resolver
@@ -211,6 +141,8 @@ struct Prepared {
     keeps: bool,
     optional: bool,
     has_writer: bool,
+    /// what object 22 held before a later revision freed it: a value the field would accept
+    old_value: Option<Primitive>,
 }
 
 fn dict_without(d: &Dictionary, k: &str) -> Dictionary {
@@ -272,10 +204,10 @@ fn prepare(schemas: &[SchemaJ], name: &str, sc: &SchemaJ, arg: Option<&Sh>, has_
             _ => {}
         }
         for (place, at_shape) in places {
-            for kind in ['F', 'N', 'U'] {
+            for kind in ['F', 'R', 'N', 'X', 'U'] {
                 for tolerant in [false, true] {
                     // the placeholder id 0 is replaced once the document (and so "beyond") is known
-                    let mut g2 = Gen { schemas, objs: g.objs.clone(), next_id: g.next_id + 50, model_only: model_known, hist: Default::default(), nesting: 1 };
+                    let mut g2 = Gen { schemas, objs: g.objs.clone(), next_id: g.next_id + 50, model_only: model_known, hist: Default::default(), nesting: 1, indirect_placement: true };
                     let mut r2 = Rng::derive(seed, &format!("c18.plant/{}/{}/{}", name, f.ident, place), variant);
                     let marker = Primitive::Reference(PlainRef { id: u64::MAX, gen: 0 });
                     let value = match place {
@@ -297,6 +229,7 @@ fn prepare(schemas: &[SchemaJ], name: &str, sc: &SchemaJ, arg: Option<&Sh>, has_
                             Primitive::Dictionary(m)
                         }
                     };
+                    let old_value = g2.value(&mut r2, &at_shape, 1).filter(|v| !matches!(v, Primitive::Null));
                     let known = model_known && g2.shape_known(&shape);
                     out.push(Prepared {
                         plant: Plant { model: name.to_string(), field: f.ident.clone(), key: key.clone(), place, kind, tolerant },
@@ -308,6 +241,7 @@ fn prepare(schemas: &[SchemaJ], name: &str, sc: &SchemaJ, arg: Option<&Sh>, has_
                         keeps: keeps_ref(&at_shape).unwrap_or(false),
                         optional,
                         has_writer,
+                        old_value,
                     });
                 }
             }
@@ -333,7 +267,7 @@ fn replace_marker(p: &Primitive, id: u64) -> Primitive {
 
 fn model_args(tolerant: bool, shape: &str, objs: &HashMap<u64, Primitive>, missing_id: u64, kind: char, p: &Primitive) -> String {
     let mut m = HashMap::new();
-    m.insert(missing_id, kind);
+    m.insert(missing_id, kind_model(kind));
     format!("{} {} {} {} {} {}", crate::c15::tree_peels() as u8, tolerant as u8, shape, objs_text(objs), missing_text(&m), show_plain(p))
 }
 
@@ -364,16 +298,19 @@ fn fields_stream(driver: &Driver, schemas: &[SchemaJ], seed: u64, variants: u64,
                         continue;
                     }
                 }
-                // baseline document / planted document
+                // baseline document / planted document (same layout, same object numbers)
+                let layout = Layout::of_variant(variant);
                 let mut objs_a = pr.objs.clone();
                 objs_a.insert(TARGET, Primitive::Dictionary(pr.base.clone()));
-                let stream_xref = variant % 2 == 1;
-                let doc_a = build_doc(&objs_a, stream_xref);
-                let miss = kind_id(pr.plant.kind, doc_a.beyond_id);
+                let ids = missing_ids(max_id_of(&objs_a, &HashMap::new()), layout);
+                let Some(miss) = kind_id(pr.plant.kind, &ids) else { continue };
+                let no_streams = HashMap::new();
+                let doc_a = build_doc(&objs_a, &no_streams, layout, pr.old_value.as_ref());
                 let planted = replace_marker(&Primitive::Dictionary(pr.planted.clone()), miss);
                 let mut objs_b = pr.objs.clone();
                 objs_b.insert(TARGET, planted.clone());
-                let doc_b = build_doc(&objs_b, stream_xref);
+                let doc_b = build_doc(&objs_b, &no_streams, layout, pr.old_value.as_ref());
+                or.count(&format!("layout={}-revision(s)/{}", layout.revisions, if layout.stream_xref { "xref-stream" } else { "classic" }));
                 let a = real_typed_read(&doc_a.bytes, name, pr.plant.tolerant);
                 let b = real_typed_read(&doc_b.bytes, name, pr.plant.tolerant);
                 let desc = format!("{}.{} {} kind={} {}", name, pr.plant.field, pr.plant.place, pr.plant.kind, if pr.plant.tolerant { "tolerant" } else { "strict" });
@@ -442,30 +379,33 @@ impl Object for PTryGet {
     }
 }
 
-fn decide_real(path: &str, kind: char, tolerant: bool) -> String {
+fn decide_real(path: &str, kind: char, tolerant: bool, layout: Layout) -> String {
     let r = std::panic::catch_unwind(std::panic::AssertUnwindSafe(|| {
         // object 10 holds a reference to the missing object (used by the nested path)
-        let probe = build_doc(&HashMap::new(), false);
-        let miss = kind_id(kind, probe.beyond_id);
+        let ids = missing_ids(TARGET, layout);
+        let miss = kind_id(kind, &ids).expect("kind available in this layout");
         let mut objs = HashMap::new();
         objs.insert(TARGET, Primitive::Reference(PlainRef { id: miss, gen: 0 }));
-        let doc = build_doc(&objs, false);
+        let doc = build_doc(&objs, &HashMap::new(), layout, Some(&Primitive::Integer(7)));
         let file = match FileOptions::uncached().parse_options(opts(tolerant)).load(doc.bytes.clone()) {
             Ok(f) => f,
             Err(e) => return format!("load-failed {}", err_chain(&e)),
         };
         let resolver = file.resolver();
         let dangling = Primitive::Reference(PlainRef { id: miss, gen: 0 });
-        let show = |e: Option<pdf::PdfError>| match e {
-            None => "none".to_string(),
-            Some(e) => format!("err {}", err_chain(&e)),
-        };
+        fn show<T>(r: pdf::error::Result<Option<T>>) -> String {
+            match r {
+                Ok(None) => "none".to_string(),
+                Ok(Some(_)) => "some(the-object-is-readable)".to_string(),
+                Err(e) => format!("err {}", err_chain(&e)),
+            }
+        }
         match path {
-            "direct" => show(Option::<i32>::from_primitive(dangling, &resolver).map(|o| assert!(o.is_none())).err()),
-            "get" => show(Option::<RcRef<i32>>::from_primitive(dangling, &resolver).map(|o| assert!(o.is_none())).err()),
-            "try" => show(Option::<PTry>::from_primitive(dangling, &resolver).map(|o| assert!(o.is_none())).err()),
-            "tryget" => show(Option::<PTryGet>::from_primitive(dangling, &resolver).map(|o| assert!(o.is_none())).err()),
-            _ => show(Option::<RcRef<PTryGet>>::from_primitive(Primitive::Reference(PlainRef { id: TARGET, gen: 0 }), &resolver).map(|o| assert!(o.is_none())).err()),
+            "direct" => show(Option::<i32>::from_primitive(dangling, &resolver)),
+            "get" => show(Option::<RcRef<i32>>::from_primitive(dangling, &resolver)),
+            "try" => show(Option::<PTry>::from_primitive(dangling, &resolver)),
+            "tryget" => show(Option::<PTryGet>::from_primitive(dangling, &resolver)),
+            _ => show(Option::<RcRef<PTryGet>>::from_primitive(Primitive::Reference(PlainRef { id: TARGET, gen: 0 }), &resolver)),
         }
     }));
     r.unwrap_or_else(|_| "panic".into())
@@ -477,22 +417,29 @@ fn decide_stream(driver: &Driver) -> (Stream, Oracle) {
     let mut or = Oracle::new("c18.option-reader");
     let mut reqs = vec![];
     let mut imps = vec![];
-    for kind in ['F', 'N', 'U'] {
+    // one single-revision and two multi-revision layouts (the freed-later and the late-/Size kinds need ≥ 2)
+    let layouts = [Layout::SINGLE, Layout { stream_xref: false, revisions: 2 }, Layout { stream_xref: true, revisions: 3 }];
+    for layout in layouts {
+    for kind in ['F', 'R', 'N', 'X', 'U'] {
+        if layout.revisions < 2 && (kind == 'R' || kind == 'X') {
+            continue;
+        }
         for path in ["direct", "get", "try", "tryget", "gettryget"] {
             for tolerant in [false, true] {
-                let imp = decide_real(path, kind, tolerant);
-                let desc = format!("kind={} path={} {}", kind, path, if tolerant { "tolerant" } else { "strict" });
+                let imp = decide_real(path, kind, tolerant, layout);
+                let desc = format!("kind={} path={} {} {}-revision(s)/{}", kind, path, if tolerant { "tolerant" } else { "strict" }, layout.revisions, if layout.stream_xref { "xref-stream" } else { "classic" });
                 or.case(&desc, true, || json!({"case": desc, "decision": imp}));
                 or.count(&format!("decision={}", imp.split(' ').next().unwrap_or("")));
                 if imp != "none" {
                     // deterministic witnesses of D38: run first, on every run
                     or.fail(&format!("option-reader:{}:{}", path, kind), &format!("Option<T> on a reference to a missing object ({}): {} instead of None", desc, imp),
-                        json!({"oracle": "c18.option-reader", "kind": kind.to_string(), "path": path, "tolerant": tolerant}));
+                        json!({"oracle": "c18.option-reader", "kind": kind.to_string(), "path": path, "tolerant": tolerant, "revisions": layout.revisions, "stream_xref": layout.stream_xref}));
                 }
-                reqs.push(format!("c18.decide {} {} {} {}", crate::c15::tree_peels() as u8, tolerant as u8, kind, path));
+                reqs.push(format!("c18.decide {} {} {} {}", crate::c15::tree_peels() as u8, tolerant as u8, kind_model(kind), path));
                 imps.push(imp);
             }
         }
+    }
     }
     let resp = driver.ask(&reqs);
     for ((rq, m), i) in reqs.iter().zip(resp.iter()).zip(imps.iter()) {
@@ -510,14 +457,17 @@ fn lazy_stream(driver: &Driver, schemas: &[SchemaJ], seed: u64, n: u64) -> (Stre
     let mut imps = vec![];
     let shape = Sh::Vec(Box::new(Sh::MaybeRef(Box::new(Sh::Model("Annot".into())))));
     for case in 0..n {
-        for kind in ['F', 'N', 'U'] {
+        for kind in ['F', 'R', 'N', 'X', 'U'] {
             for tolerant in [false, true] {
+                let layout = Layout::of_variant(case + 1);
                 let mut rng = Rng::derive(seed, "c18.lazy", case);
                 let mut g = Gen::new(schemas, true);
                 // some annotations that do exist, so that the documents are not all alike
                 let _ = g.value(&mut rng, &shape, 2);
-                let doc0 = build_doc(&g.objs, false);
-                let miss = kind_id(kind, doc0.beyond_id);
+                // what object 22 held before it was freed: a list of annotations
+                let old = Primitive::Array(vec![Primitive::Dictionary({ let mut d = Dictionary::new(); d.insert("Type", Primitive::name("Annot")); d.insert("Subtype", Primitive::name("Text")); d })]);
+                let doc0 = build_doc(&g.objs, &HashMap::new(), layout, Some(&old));
+                let Some(miss) = kind_id(kind, &doc0.ids) else { continue };
                 let imp = std::panic::catch_unwind(std::panic::AssertUnwindSafe(|| {
                     let file = match FileOptions::uncached().parse_options(opts(tolerant)).load(doc0.bytes.clone()) {
                         Ok(f) => f,
@@ -544,6 +494,7 @@ fn lazy_stream(driver: &Driver, schemas: &[SchemaJ], seed: u64, n: u64) -> (Stre
                 }
                 let p = Primitive::Reference(PlainRef { id: miss, gen: 0 });
                 reqs.push(format!("c18.lazy {}", model_args(tolerant, &show_shape(&shape), &g.objs, miss, kind, &p)));
+                st.count(&format!("kind={}", kind));
                 imps.push(imp);
             }
         }
@@ -597,16 +548,21 @@ fn tree_oracle(schemas: &[SchemaJ], seed: u64, variants: u64) -> Oracle {
                 }
                 let optional = f.default.is_some() || g.reads_null(&f.shape);
                 let keeps = keeps_ref(&f.shape).unwrap_or(false);
-                for kind in ['F', 'N', 'U'] {
+                for kind in ['F', 'R', 'N', 'X', 'U'] {
                     for tolerant in [false, true] {
+                        let layout = Layout::of_variant(variant + 1);
+                        let mut old_rng = Rng::derive(seed, &format!("c18.tree.old/{}/{}", model, f.ident), variant);
+                        let mut g_old = Gen { schemas, objs: g.objs.clone(), next_id: g.next_id + 50, model_only: false, hist: Default::default(), nesting: 1, indirect_placement: true };
+                        let old_value = g_old.value(&mut old_rng, &f.shape, 1).filter(|v| !matches!(v, Primitive::Null));
+                        let base_objs = g_old.objs.clone();
+                        let mut probe = base_objs.clone();
+                        probe.insert(obj_id, Primitive::Null);
+                        let ids = missing_ids(max_id_of(&probe, &HashMap::new()), layout);
+                        let Some(miss) = kind_id(kind, &ids) else { continue };
                         let observe = |dict: &Dictionary| -> (String, Vec<u8>) {
-                            let mut objs = g.objs.clone();
-                            objs.insert(obj_id, Primitive::Dictionary(dict.clone()));
-                            let probe = build_doc(&objs, variant % 2 == 1);
-                            let miss = kind_id(kind, probe.beyond_id);
-                            let mut objs2 = g.objs.clone();
+                            let mut objs2 = base_objs.clone();
                             objs2.insert(obj_id, replace_marker(&Primitive::Dictionary(dict.clone()), miss));
-                            let doc = build_doc(&objs2, variant % 2 == 1);
+                            let doc = build_doc(&objs2, &HashMap::new(), layout, old_value.as_ref());
                             let res = std::panic::catch_unwind(std::panic::AssertUnwindSafe(|| {
                                 let file = match FileOptions::uncached().parse_options(opts(tolerant)).load(doc.bytes.clone()) {
                                     Ok(f) => f,
@@ -679,12 +635,12 @@ pub fn run(driver: &Driver, seed: u64, thorough: bool, replay: Option<&serde_jso
     let (st, or) = decide_stream(driver);
     rep.streams.push(st);
     rep.oracles.push(or);
-    let (st, or) = fields_stream(driver, &schemas, seed, if thorough { 40 } else { 2 }, None);
+    let (st, or) = fields_stream(driver, &schemas, seed, if thorough { 42 } else { 3 }, None);
     rep.streams.push(st);
     rep.oracles.push(or);
-    let (st, or) = lazy_stream(driver, &schemas, seed, if thorough { 40 } else { 2 });
+    let (st, or) = lazy_stream(driver, &schemas, seed, if thorough { 42 } else { 3 });
     rep.streams.push(st);
     rep.oracles.push(or);
-    rep.oracles.push(tree_oracle(&schemas, seed, if thorough { 20 } else { 2 }));
+    rep.oracles.push(tree_oracle(&schemas, seed, if thorough { 21 } else { 3 }));
     rep
 }
